@@ -297,7 +297,7 @@ pub fn install_panic_hook() {
             }
         };
         LAST_PANIC.with(|c| *c.borrow_mut() = Some(msg));
-        if !QUIET.with(|q| q.get()) {
+        if !QUIET.with(|q| q.get()) || std::env::var("VERIF_LOUD").is_ok() {
             default(info);
         }
     }));
